@@ -678,7 +678,7 @@ def prop(case, ctx):
     tainted = taint(items)
     kinds = set(d['k'] for d in decls)
     rich = 'func' in kinds and 'gvar' in kinds and 'struct' in kinds
-    env = {'case': case, 'decls': decls, 'facts': facts, 'ffi': mffi, 'lib': lib, 'cdll': cdll,
+    env = {'items': items, 'case': case, 'decls': decls, 'facts': facts, 'ffi': mffi, 'lib': lib, 'cdll': cdll,
            'ctx': ctx, 'cdef': cdef, 'rich': rich, 'calls': calls, 'errors': (mffi.error, cffi.VerificationError)}
     present = set(dir(lib))
     for it in items:
@@ -735,6 +735,35 @@ def _must_raise(env, it, label, thunks):
                             c_decl=_line(it['d']), cdef=env['cdef'])
 
 
+def _embeds_partial(fields, env, seen=None):
+    """does a struct with these fields contain, by value (directly, through arrays, typedefs or
+    nested complete structs), a struct/union that this case declares with '...;' ?"""
+    seen = seen or set()
+    partial_tags = set(x['d']['tag'] for x in env['items']
+                       if x['d']['k'] == 'struct' and x['how'] == 'flex' and x['what'] == 'struct-dots')
+    by_tag = dict((x['d']['tag'], x['d']) for x in env['items'] if x['d']['k'] == 'struct')
+    spec = env['case']['spec']
+
+    def walk(t):
+        while t[0] == 'arr':
+            t = t[2]
+        if t[0] == 'td':
+            try:
+                t = cdefgen.resolve(t, spec)
+            except KeyError:
+                return False
+            return walk(t)
+        if t[0] == 'agg':
+            tag = t[2]
+            if tag in partial_tags:
+                return True
+            if tag in by_tag and tag not in seen:
+                seen.add(tag)
+                return any(b is None and walk(ft) for _fn, ft, b in by_tag[tag]['fields'])
+        return False
+    return any(bits is None and walk(ft) for _fn, ft, bits in fields)
+
+
 def check_struct(it, env):
     d, ctx, ffi, facts = it['d'], env['ctx'], env['ffi'], env['facts']
     T = '%s %s' % (d['kw'], d['tag'])
@@ -757,6 +786,8 @@ def check_struct(it, env):
         disagree = msize != csize or any(mf[fn] != cf[fn] for fn in mf)
         nominal_differs = disagree or malign != calign
         if how == 'mut':
+            if disagree and _embeds_partial(fields, env) and ctx.skip_known('struct-embedding-partial-struct-unchecked'):
+                return
             if disagree:
                 _note(env, it, True, ['mut:struct really disagrees'])
                 first = fields[0][0]
